@@ -46,7 +46,7 @@ MINIMA = {'local_valid_opening_accepted': 3000, 'local_invalid_opening_refused':
           'next_id_exhausted_checked': 100, 'peer_fresh_opening_accepted': 3000, 'peer_wrong_parity_judged': 300,
           'peer_skipped_id_judged': 300, 'peer_reset_id_stream_error': 300, 'peer_ended_id_conn_error': 300,
           'priority_neutrality_checked': 2000, 'opening_after_priority_on_higher_id': 300,
-          'wire_openings_checked': 3000, 'failed_opening_id_unused_checked': 300, 'failed_opening_with_skipping_id_checked': 100, 'refused_promise_id_recorded': 100, 'classified_after_cleanup': 300, 'classified_while_saturated': 100}
+          'wire_openings_checked': 3000, 'failed_opening_id_unused_checked': 300, 'failed_opening_with_skipping_id_checked': 100, 'refused_promise_id_recorded': 100, 'stale_promise_on_reset_parent': 30, 'peer_promised_again_judged': 30, 'classified_after_cleanup': 300, 'classified_while_saturated': 100}
 EXHAUSTIVE = {}
 
 TOP = 2 ** 31 - 1
@@ -342,6 +342,8 @@ def run_case(idx, rng, tier, rep):
         classes = []
         for who_kind in ('parity', 'skipped', 'reset', 'ended'):
             classes.append(who_kind)
+        if e_client:
+            classes.append('promised-again')
         klass = rng.choice(classes)
         cleaned = rng.random() < 0.5
         if klass == 'parity':
@@ -360,6 +362,12 @@ def run_case(idx, rng, tier, rep):
             if not c:
                 return
             y = rng.choice(c)
+        elif klass == 'promised-again':
+            # an id the peer has promised and whose stream is still reserved or live
+            c = [s for s, v in used.items() if v['by'] == 'P' and v['fate'] == 'reserved']
+            if not c:
+                return
+            y = rng.choice(sorted(c))
         else:
             fates = ('rst_e', 'rst_p') if klass == 'reset' else ('end',)
             c = [s for s, v in used.items() if v['by'] == 'P' and v['fate'] in fates]
@@ -368,7 +376,7 @@ def run_case(idx, rng, tier, rep):
             y = rng.choice(sorted(c))
         # frame that would open the stream
         if e_client:
-            use_promise = (klass != 'parity' and rng.random() < 0.6) or (klass == 'parity' and rng.random() < 0.5)
+            use_promise = (klass != 'parity' and rng.random() < 0.6) or (klass == 'parity' and rng.random() < 0.5) or klass == 'promised-again'
             if use_promise:
                 par = ensure_parent()
                 if par is None or not st['alive']:
@@ -400,6 +408,9 @@ def run_case(idx, rng, tier, rep):
         elif klass == 'ended':
             if expect_conn_error(res, STREAM_CLOSED, 'normally-ended', fname):
                 rep.count('peer_ended_id_conn_error')
+        elif klass == 'promised-again':
+            rep.count('peer_promised_again_judged')
+            expect_conn_error(res, PROTOCOL_ERROR, 'promised-again', fname)
         else:
             st['judged'] = True
             rsts = [f for f in res.frames if f.type == wire.RST_STREAM and f.stream_id == y]
@@ -466,6 +477,22 @@ def run_case(idx, rng, tier, rep):
         par = rng.choice(sorted(c))
         if rng.random() < 0.5:
             h.cleanup()
+        low = [s for s in skipped_ids('P') + [s for s, v in used.items() if v['by'] == 'P'] if s <= hi['P']]
+        if low and rng.random() < 0.5:
+            # the racing promise names an id the peer may not use any more (skipped or used): whether that is answered on the
+            # promised stream or as a connection error, the peer's id space does not move backwards
+            y = rng.choice(sorted(set(low)))
+            steps.append(('P-push-on-locally-reset-parent-with-stale-id', par, y))
+            res = h.send(wire.build_push_promise(par, y, hb(REQ)))
+            rep.count('stale_promise_on_reset_parent')
+            if res.exc is not None:
+                st['alive'] = False
+            elif any(isinstance(e, h2.events.PushedStreamReceived) for e in res.events):
+                return fail('C09:stale-promised-id-accepted', 'PUSH_PROMISE(%d -> %d) delivered although %d is not above the peer highest %d' %
+                            (par, y, y, hi['P']))
+            elif rng.random() < 0.7:
+                p_open_invalid()          # and the ids at and below the peer's highest are as unusable as before
+            return
         steps.append(('P-push-on-locally-reset-parent', par, y))
         res = h.send(wire.build_push_promise(par, y, hb(REQ)))
         st['judged'] = True
